@@ -256,9 +256,9 @@ pub fn supervise(a: &HashMap<String, String>) -> i32 {
     let jobs: usize = a.get("jobs").and_then(|s| s.parse().ok()).unwrap_or(16);
     let flavour = a.get("flavour").cloned().unwrap_or_else(|| "rel".into());
     let level = a.get("level").cloned().unwrap_or_else(|| "exploration".into());
-    let out_path = a.get("out").cloned().unwrap_or_else(|| format!("/verif/evidence/.part-{}-{}.json", prop, flavour));
-    let replay_dir = a.get("replay-dir").cloned().unwrap_or_else(|| "/verif/replays".into());
-    let known_path = a.get("known").cloned().unwrap_or_else(|| "/verif/known_findings.json".into());
+    let out_path = a.get("out").cloned().unwrap_or_else(|| format!("{}/evidence/.part-{}-{}.json", crate::home(), prop, flavour));
+    let replay_dir = a.get("replay-dir").cloned().unwrap_or_else(|| format!("{}/replays", crate::home()));
+    let known_path = a.get("known").cloned().unwrap_or_else(|| format!("{}/known_findings.json", crate::home()));
     let hang_s: u64 = a.get("hang-s").and_then(|s| s.parse().ok()).unwrap_or(300);
     let deadline_s: Option<u64> = a.get("deadline-s").and_then(|s| s.parse().ok());
     let me = std::env::current_exe().unwrap().to_string_lossy().to_string();
@@ -268,7 +268,7 @@ pub fn supervise(a: &HashMap<String, String>) -> i32 {
         None => vec![(flavour.clone(), me.clone())],
     };
     let _ = std::fs::create_dir_all(&replay_dir);
-    let tmp = format!("/verif/target/tmp/{}-{}-{}", prop, flavour, std::process::id());
+    let tmp = format!("{}/target/tmp/{}-{}-{}", crate::home(), prop, flavour, std::process::id());
     let _ = std::fs::create_dir_all(&tmp);
     let known = load_known(&known_path);
 
@@ -582,7 +582,7 @@ pub fn worker_hashes(a: &HashMap<String, String>) -> i32 {
     let jobs: usize = a.get("jobs").and_then(|s| s.parse().ok()).unwrap_or(4);
     let tier_s = a.get("tier").cloned().unwrap_or_else(|| "quick".into());
     let me = std::env::current_exe().unwrap().to_string_lossy().to_string();
-    let tmp = format!("/verif/target/tmp/hashes-{}", std::process::id());
+    let tmp = format!("{}/target/tmp/hashes-{}", crate::home(), std::process::id());
     let _ = std::fs::create_dir_all(&tmp);
     let (tx, rx) = mpsc::channel::<Msg>();
     let mut kids = Vec::new();
